@@ -238,7 +238,9 @@ theorem listeners_newChannel (n : Node) (d : Nat) : (newChannel n d).1.listeners
   unfold newChannel
   split
   · rfl
-  · split <;> rfl
+  · split
+    · rfl
+    · split <;> rfl
 
 theorem lookup_listeners_setup {n : Node} {d key t v k : Nat} {ins : List OutPoint} (hk : key ≠ k) :
     lookup k (setup n d key t v ins).1.listeners = lookup k n.listeners := by
